@@ -5,15 +5,21 @@
   hwloc_obj_set_subtype acting on the observable dump): WF is preserved by every call and hence along
   every history; EINVAL from allow leaves the topology untouched; the in-place array code of
   hwloc_modify_infos REPLACE / REMOVE computes the documented list edits.
-  PARTIAL: restrict (C08), Group insertion, Misc insertion, distances grouping, memattr / cpukind
-  registration are not predicted by this model — after each such call the real topology is dumped and
-  judged by the proved oracle (C01) and by the stability relations of `Driver.History`.
+  hwloc_topology_insert_misc_object (model `Hw.Topo.MiscIns.insertMisc`, a function on the whole dump: ids, every link,
+  ranks, logical indexes, cousins, levels) is predicted exactly and proved to preserve WF for EVERY well-formed dump and
+  every parent (section "Misc insertion" below); histories mixing it with allow / infos / subtype are covered by
+  `C02_history_misc_wf`.
+  PARTIAL: restrict (C08), distances grouping, memattr / cpukind registration are not predicted by this model — after
+  each such call the real topology is dumped and judged by the proved oracle (C01) and by the stability relations of
+  `Driver.History`; Group insertion is predicted and proved on the tree level (section "Group insertion"), it is not a
+  constructor of the dump-level history type.
 -/
 import Hw.Topo.HistoryLemmas
 import Hw.Topo.InsertWF
 import Hw.Topo.InsertOrder
 import Hw.Topo.InsertOrd2
 import Hw.Topo.InsertSort
+import Hw.Topo.MiscInsertExample
 namespace Hw.Props.C02
 open Hw.Topo Hw.Topo.Hist
 
@@ -198,5 +204,101 @@ example : (match ins { gp := 9, type := tGROUP, key := 0x3 }
     | .failed t' => rows 0 t' | _ => [])
     = [(0, 0, [], []), (1, 0, [], []), (2, 0, [], []), (4, 0, [], [])] := by decide +kernel
 end
+
+/-! ### Misc insertion: `hwloc_topology_insert_misc_object` on the dump level (model `Hw.Topo.MiscIns`, predicted exactly by the driver) -/
+
+section MiscInsertion
+open Hw.Topo.MiscIns
+
+/-- **WF is preserved by hwloc_topology_insert_misc_object**: for EVERY well-formed dump, every parent object `p` (normal, memory,
+I/O or Misc), every name and every amount `skip` of gp indexes consumed by unlinked objects — whether the call succeeds or
+is refused.  All 18 topology clauses and all 30 object clauses of C01 are re-established (links, ranks, arities, levels, logical
+indexes, cousins, the per-object aggregates over the children lists). -/
+theorem C02_insert_misc_wf (d : Dump) (p : Nat) (name : Option String) (skip : Nat) (h : WF d) :
+    WF (insertMisc d p name skip).1 := insertMisc_wf d p name skip h
+
+/-- … and this does not depend on the depth-first numbering of the dump: inserting the new Misc child at ANY position behind its
+parent (with the logical index its position in the Misc level demands) yields a well-formed dump -/
+theorem C02_insert_misc_wf_any_position (d : Dump) (h : WF d) (p pos k : Nat) (name : Option String) (skip : Nat)
+    (hp : p < pos) (hpos : pos ≤ d.objs.length) (hf : (d.filters[tMISC]?).getD 0 ≠ 1)
+    (hk : ∀ l ∈ d.levels, l.depth = -7 → k = (l.objs.filter (fun i => decide (i < (pos : Int)))).length) :
+    WF (after d p pos k name skip) :=
+  after_wf h p pos k name skip hp hpos hf (fun l hl h7 => by rw [hk l hl h7]; exact List.length_filter_le _ _) hk
+
+/-- EINVAL when Misc objects are filtered out (type filter KEEP_NONE): nothing changes -/
+theorem C02_insert_misc_filtered_unchanged (d : Dump) (p : Nat) (name : Option String) (skip : Nat)
+    (hf : (d.filters[tMISC]?).getD 0 = 1) : insertMisc d p name skip = (d, .einval) :=
+  insertMisc_filtered_unchanged d p name skip hf
+
+/-- any refused call leaves every observable attribute unchanged -/
+theorem C02_insert_misc_einval_unchanged (d : Dump) (p : Nat) (name : Option String) (skip : Nat)
+    (he : (insertMisc d p name skip).2 = .einval) : (insertMisc d p name skip).1 = d :=
+  insertMisc_einval_unchanged d p name skip he
+
+/-- **frame**: after a successful call the topology header is unchanged (one more object), the new object sits at number
+`pos` = end of the parent's subtree, and the old object number `i` is found at number `shN pos i` (numbers ≥ pos move up by one)
+as `upd … o` — nothing else exists -/
+theorem C02_insert_misc_frame (d : Dump) (p : Nat) (name : Option String) (skip : Nat)
+    (hf : (d.filters[tMISC]?).getD 0 ≠ 1) (hp : p < d.objs.length) :
+    let pos := subEnd d p
+    let k := newLidx d pos
+    let d' := (insertMisc d p name skip).1
+    p < pos ∧ pos ≤ d.objs.length ∧ d'.objs.length = d.objs.length + 1 ∧
+    d'.objs[pos]? = some (newObj d p pos k name skip) ∧
+    (∀ i, d'.objs[shN pos i]? = (d.objs[i]?).map (upd p pos k (lastId d p))) ∧
+    d'.flags = d.flags ∧ d'.depth = d.depth ∧ d'.root = d.root ∧ d'.allowedCpuset = d.allowedCpuset ∧
+    d'.allowedNodeset = d.allowedNodeset ∧ d'.filters = d.filters ∧ d'.typeDepths = d.typeDepths ∧ d'.nobjs = d.nobjs + 1 :=
+  insertMisc_objs d p name skip hf hp
+
+/-- … where `upd` leaves type, depth, os_index, gp_index, sibling_rank, arity, memory_arity, io_arity, symmetric_subtree, the four
+sets, total_memory, attributes, subtype, name and infos of EVERY old object untouched, renames the link fields, and changes
+exactly: misc_arity / misc_first_child of the parent, next_sibling of the previous last Misc child, logical_index of the Misc
+objects behind the insertion point (+1), prev_cousin of the first Misc object behind it and next_cousin of the last one before it -/
+theorem C02_insert_misc_frame_fields (p pos k : Nat) (last : Int) (o : Obj) :
+    let o' := upd p pos k last o
+    o'.type = o.type ∧ o'.depth = o.depth ∧ o'.osidx = o.osidx ∧ o'.gp = o.gp ∧ o'.rank = o.rank ∧ o'.arity = o.arity ∧
+    o'.marity = o.marity ∧ o'.ioarity = o.ioarity ∧ o'.symm = o.symm ∧ o'.cpuset = o.cpuset ∧ o'.ccpuset = o.ccpuset ∧
+    o'.nodeset = o.nodeset ∧ o'.cnodeset = o.cnodeset ∧ o'.totalMem = o.totalMem ∧ o'.attrs = o.attrs ∧ o'.subtype = o.subtype ∧
+    o'.name = o.name ∧ o'.infos = o.infos ∧
+    o'.id = shN pos o.id ∧ o'.parent = shI pos o.parent ∧ o'.prevSib = shI pos o.prevSib ∧ o'.firstChild = shI pos o.firstChild ∧
+    o'.lastChild = shI pos o.lastChild ∧ o'.memFirst = shI pos o.memFirst ∧ o'.ioFirst = shI pos o.ioFirst ∧
+    o'.children = o.children.map (shI pos) ∧
+    o'.miscarity = (if o.id = p then o.miscarity + 1 else o.miscarity) ∧
+    o'.miscFirst = (if o.id = p ∧ o.miscarity = 0 then (pos : Int) else shI pos o.miscFirst) ∧
+    o'.nextSib = (if (o.id : Int) = last then (pos : Int) else shI pos o.nextSib) ∧
+    o'.lidx = (if o.type = tMISC ∧ k ≤ o.lidx then o.lidx + 1 else o.lidx) ∧
+    o'.prevCousin = (if o.type = tMISC ∧ o.lidx = k then (pos : Int) else shI pos o.prevCousin) ∧
+    o'.nextCousin = (if o.type = tMISC ∧ o.lidx + 1 = k then (pos : Int) else shI pos o.nextCousin) :=
+  upd_frame p pos k last o
+
+/-- gp_index: the old values stay (same objects, same order, the new value inserted at `pos`), and the new one is fresh: above
+every old one -/
+theorem C02_insert_misc_gp (d : Dump) (p : Nat) (name : Option String) (skip : Nat)
+    (hf : (d.filters[tMISC]?).getD 0 ≠ 1) (hp : p < d.objs.length) :
+    (insertMisc d p name skip).1.objs.map (·.gp) = insAt (d.objs.map (·.gp)) (subEnd d p) (maxGp d + 1 + skip) ∧
+    ∀ o ∈ d.objs, o.gp < maxGp d + 1 + skip := insertMisc_gps d p name skip hf hp
+
+/-- one call of the extended modelled API (allow, add_info, modify_infos, set_subtype, insert_misc_object) keeps the topology well formed -/
+theorem C02_step_misc_wf (d : Dump) (op : MOp) (h : WF d) : WF (stepM d op).1 := stepM_wf d op h
+
+/-- **… hence every finite history mixing these calls does** (the induction over op lists of `C02_history_wf`, extended with
+Misc insertion) -/
+theorem C02_history_misc_wf (d : Dump) (ops : List MOp) (h : WF d) : WF (runM d ops) := historyM_wf d ops h
+
+/-! non-vacuity: `core:2 pu:1` with Misc kept is well formed; a Misc below Core 0, a second one below the first (Misc below Misc), a
+third below the Machine, interleaved with an info edit; the refused call -/
+example : WF exD := exD_wf
+example : (insertMisc exD 1 (some "a") 0).2 = .ok 0 := by decide
+example : (((insertMisc exD 1 (some "a") 0).1.levels.find? (fun l => l.depth == -7)).map (·.objs)) = some [3] := by decide
+example : wfCheck (runM exD [.misc 1 (some "a") 0, .misc 3 none 2, .base (.addInfo 3 (some "k") (some "v")), .misc 0 (some "c") 0]) = [] := by
+  decide +kernel
+example : (((runM exD [.misc 1 (some "a") 0, .misc 3 none 2, .misc 0 (some "c") 0]).levels.find? (fun l => l.depth == -7)).map (·.objs))
+    = some [3, 4, 8] := by decide +kernel
+example : ((runM exD [.misc 1 (some "a") 0, .misc 3 none 2, .misc 0 (some "c") 0]).objs.map (·.gp)) = [1, 3, 2, 7, 10, 5, 4, 6, 11] := by
+  decide +kernel
+example : (exDnone.filters[tMISC]?).getD 0 = 1 := by decide
+example : insertMisc exDnone 1 (some "a") 0 = (exDnone, .einval) := C02_insert_misc_filtered_unchanged _ _ _ _ (by decide)
+example : (1 : Nat) < subEnd exD 1 ∧ subEnd exD 1 = 3 ∧ newLidx exD 3 = 0 := by decide
+end MiscInsertion
 
 end Hw.Props.C02
